@@ -18,7 +18,7 @@ def parseSeqs (s : String) : Option (List (List Entry)) :=
   (splitList s "|").mapM fun q => (splitList q ",").mapM parseEntry
 
 def parseObs (kv : List (String × String)) : Option Obs := do
-  pure { endT := ← getI? kv "end", err := getS kv "err", total := ← getN? kv "total", bad := ← getN? kv "bad",
+  pure { endT := ← getI? kv "end", stall := (getI? kv "stall").getD 0, err := getS kv "err", total := ← getN? kv "total", bad := ← getN? kv "bad",
          net := getS kv "net" "-", tag := getS kv "tag" "-", offs := ← parseInts (getS kv "offs"),
          seqs := ← parseSeqs (getS kv "seq") }
 
@@ -171,7 +171,8 @@ def handle : Handler := fun input impl =>
     let anyD := seqs.any (·.any (·.dec == 'D'))
     let (net, tag) := if i.mode == "engine" && anyD then (toString discardNetCode, discardTag) else ("-", "-")
     let offs := if i.mode == "engine" then s!" offs={",".intercalate (o.offs.map toString)}" else ""
-    let mobs := s!"end={o.endT} err={o.err} total={o.total} bad=0 net={net} tag={tag}{offs} seq={renderSeqs seqs}"
+    let st := if i.mode == "engine" then s!" stall={o.stall}" else ""
+    let mobs := s!"end={o.endT}{st} err={o.err} total={o.total} bad=0 net={net} tag={tag}{offs} seq={renderSeqs seqs}"
     let v := judgeFull (profParts (getS (parseKV input) "prof")) i o
     let v := if v == "ok" && amb > 0 then s!"skip:inconclusive-{amb}-decisions-inside-the-reading-interval" else v
     (mobs, v)
